@@ -213,6 +213,26 @@ def main(rep, ws, tier):
                             if a_.op == 'fmul' and any(z.op == 'const' and not isinstance(T.const_value(z), str) and abs(T.const_value(z)) > 10 ** 30 for z in a_.args) and (abs_arg(b_) is not None or b_.op == 'const'):
                                 dd = [abs_arg(z) for z in a_.args if abs_arg(z) is not None]
                                 if dd: over.add(((abs_arg(b_) if b_.op != 'const' else b_).id, dd[0].id))      # a constant numerator is its own magnitude
+                    # the two-sided spelling of the same guard:  N <= -(max*|D|)  ||  N >= max*|D|
+                    def maxmul(n):
+                        neg = False
+                        if n.op == 'fneg': n = n.args[0]; neg = True
+                        if n.op == 'fmul' and any(z.op == 'const' and not isinstance(T.const_value(z), str) and abs(T.const_value(z)) > 10 ** 30 for z in n.args):
+                            if any(z.op == 'const' and T.const_value(z) < 0 for z in n.args if z.op == 'const'): neg = not neg
+                            dd = [abs_arg(z) for z in n.args if abs_arg(z) is not None]
+                            if dd: return dd[0], neg
+                        return None
+                    lows = set(); ups = set(); seen_ = set(); st_ = [tc]
+                    while st_:
+                        x = st_.pop()
+                        if x.id in seen_: continue
+                        seen_.add(x.id); st_.extend(x.args)
+                        if x.op == 'fcmp' and x.attr in ('olt', 'ole'):
+                            a_, b_ = x.args
+                            mb = maxmul(b_); ma = maxmul(a_)
+                            if mb is not None and mb[1] and abs_arg(a_) is None and a_.op != 'const': lows.add((a_.id, mb[0].id))       # N <= -(max |D|)
+                            if ma is not None and not ma[1] and abs_arg(b_) is None and b_.op != 'const': ups.add((b_.id, ma[0].id))    # max |D| <= N
+                    over |= (lows & ups)
                     quot = {}
                     zero_tested = set()
                     from .common import lift_all
@@ -250,7 +270,7 @@ def main(rep, ws, tier):
                         if d_.id in zero_tested or q.args[1].id in zero_tested: return True  # a divisor that is only tested against zero (no overflow guard is claimed for it)
                         return False
                     unguarded = [q for q in quot.values() if core(q.args[1]).id in small and not guarded(q)]
-                    if quot and over:
+                    if quot and (over or unguarded):
                         rep.ob(oid + '#guard', 'R07.iff', VIOLATED if unguarded else HOLDS,
                                'the quotient %s of the result has no guard |D| < 1 && |N| > max*|D| of its own in the throw condition %s' % (T.show(unguarded[0], 3)[:120], T.show(tc, 3)[:200]) if unguarded else
                                '%d quotients, each with its own overflow guard' % len(quot), where)
